@@ -30,7 +30,7 @@ def pairs(tier):
         if n > heavy_max:
             continue
         # groupby: tree vs shuffle reduction
-        for q in ("L.groupby('a').c.sum({k})", "L.groupby('a').b.mean({k})", "L.groupby('a').count({k})", "L.groupby('a').size({k})"):
+        for q in ("L.groupby('a').c.sum({k})", "L.groupby('a').b.mean({k})", "L.groupby('a').count({k})", "L.groupby('a').size({k})", "L.groupby('a').b.median({k})"):
             for se in (SPLIT_EVERY if tier != "quick" else [False, 2, 8]):
                 out.append((P(q.format(k="")), q.format(k=f"split_every={se}"), "groupby-split_every"))
             for so in SPLIT_OUT:
